@@ -3,4 +3,4 @@ import chainlib, chaintrace
 
 def run(tier):
     return chainlib.run_family("C01", tier, "Chain_core.cfg", "Chain_core_edges.cfg",
-                               {"quick": (2, 5), "thorough": (6, 6)}, extra=chaintrace.leg_t("C01"))
+                               {"quick": (1, 5), "thorough": (5, 6)}, extra=chaintrace.leg_t("C01"))
